@@ -29,7 +29,7 @@ ARG_KINDS = ("req", "opt", "multi", "multi_req")
 
 LONGS = ("alpha", "dry-run", "gamma", "v2x", "eps")
 SHORTS = ("a", "D", "c", "v", "e")
-ARG_NAMES = ("first", "cmd11", "third", "rest")
+ARG_NAMES = ("first", "cmd11", "third", "rest", "cmd1", "cmd2", "cmd12", "cmd21")  # incl. names shaped like the placeholder arguments the parser invents for command names
 CMD_NAMES = (("server", ("srv",)), ("add", ("plus", "a")))
 
 TYPED_DEFAULT = {"str": "dflt", "bool": True, "int": 5, "float": 2.5}
